@@ -6,12 +6,18 @@
    Variant "kept": the constructor keeps the trusted_gateways argument (None =
    honour the header from anybody).  Variant "discarded": the constructor of
    the pinned tree, `self.trusted_gateways = None` whatever was passed: TLC
-   must find the violation (teeth).  A variant is a generator, never an oracle. *)
+   must find the violation (teeth).  Variant "suffixtrust": the peer is trusted
+   when its address text ends with a gateway's (110.0.0.1 passes for 10.0.0.1):
+   TLC must find that too.  A variant is a generator, never an oracle.
+
+   A peer address is a token sequence <<rpre, remote, rpost>> (VHostOps), so
+   that the table contains peers whose text has a gateway's address as proper
+   suffix, prefix or substring, and the IPv4-mapped IPv6 form.             *)
 EXTENDS VHostOps, TLC
 
-CONSTANTS Trusteds, Remotes, Xfhs, Hosts, Variant
+CONSTANTS Trusteds, Remotes, Pres, Posts, Xfhs, Hosts, Variant
 
-VARIABLES c,     \* <<trusted, remote, xfh, host>>: what a replay drives
+VARIABLES c,     \* <<trusted, remote, rpre, rpost, xfh, host>>: what a replay drives
           out, bad
 
 vars == <<c, out, bad>>
@@ -23,23 +29,25 @@ HostDomain(h) == IF h = "mapped" THEN "a.example" ELSE "www.example"
 (* first list element, stripped, lower-cased; "" when absent or empty *)
 Forwarded(x) == CASE x \in {"mapped", "list"} -> "b.example" [] x = "unmapped" -> "zzz.example" [] OTHER -> ""
 
-Consulted(t, r) == \/ Variant = "discarded"
-                   \/ t = "none"
-                   \/ r \in TrustedSet(t)
+(* `request.remote.ip in self.trusted_gateways`: membership of the whole address *)
+Consulted(t, r, pre, post) ==
+  \/ Variant = "discarded"
+  \/ t = "none"
+  \/ r \in TrustedSet(t) /\ post = "" /\ (pre = "" \/ Variant = "suffixtrust")
 
-Case(t, r, x, h) ==
+Case(t, r, pre, post, x, h) ==
   /\ c = <<>>
-  /\ c' = <<t, r, x, h>>
-  /\ LET fw     == IF Consulted(t, r) THEN Forwarded(x) ELSE ""
+  /\ c' = <<t, r, pre, post, x, h>>
+  /\ LET fw     == IF Consulted(t, r, pre, post) THEN Forwarded(x) ELSE ""
          domain == IF fw # "" THEN fw ELSE HostDomain(h)
          path   == Prefix(domain)
          base   == Prefix(HostDomain(h))
-         lines  == <<[trusted |-> t, remote |-> r, xfh |-> x, host |-> h, path |-> path, infl |-> path # base]>>
+         lines  == <<[trusted |-> t, remote |-> r, rpre |-> pre, rpost |-> post, xfh |-> x, host |-> h, path |-> path, infl |-> path # base]>>
      IN out' = lines /\ bad' = Run(P0, lines, "")[2]
 
 Init == c = <<>> /\ out = <<>> /\ bad = ""
 
-Next == \E t \in Trusteds, r \in Remotes, x \in Xfhs, h \in Hosts : Case(t, r, x, h)
+Next == \E t \in Trusteds, r \in Remotes, pre \in Pres, post \in Posts, x \in Xfhs, h \in Hosts : Case(t, r, pre, post, x, h)
 
 Spec == Init /\ [][Next]_vars
 
@@ -50,5 +58,5 @@ Conforms == bad = ""
 
 (* C20 stated directly: Honoured => remote \in trusted, for a configured list *)
 GatewayTrust == out # <<>> =>
-  LET ln == out[1] IN (ln.infl /\ ln.trusted # "none") => ln.remote \in TrustedSet(ln.trusted)
+  LET ln == out[1] IN (ln.infl /\ ln.trusted # "none") => FromTrusted(ln)
 =============================================================================
